@@ -326,6 +326,8 @@ def rule_api_handout(ctx):
                text=f"{m}:nothing-raises-after-handout")
         rets = [n for n in after if n.kind == "return"]
         tgt = unparse(aw[0].stmt.targets[0]) if isinstance(aw[0].stmt, ast.Assign) else None
+        if isinstance(aw[0].stmt, ast.Return) and aw[0].stmt.value is aw[0].ast:
+            tgt = unparse(aw[0].ast)         # `return await self._fetcher...(...)`
         ctx.ob(R, fi, aw[0], bool(rets) and all(r.ast.value is not None and unparse(r.ast.value) == tgt for r in rets), f"{m}() does not return exactly what the fetcher handed out", text=f"{m}:returns-handout")
 
 
